@@ -451,7 +451,7 @@ func genExtracted(b *strings.Builder, root, authp, httpio *pkg) {
 	for _, f := range [][2]string{{"wsConn", "handleResponse"}, {"wsConn", "closeInFlight"}, {"wsConn", "closeChans"}, {"wsConn", "handleCall"},
 		{"wsConn", "cancelCtx"}, {"wsConn", "handleCtxAsync"}, {"wsConn", "handleChanMessage"}, {"wsConn", "handleChanClose"},
 		{"wsConn", "handleOutChans"}, {"wsConn", "handleChanOut"}, {"wsConn", "readFrame"}, {"wsConn", "handleFrame"}, {"wsConn", "sendRequest"},
-		{"wsConn", "tryReconnect"}, {"wsConn", "handleWsConn"}, {"wsConn", "setupPings"}, {"wsConn", "nextMessage"}, {"wsConn", "nextWriter"},
+		{"wsConn", "tryReconnect"}, {"wsConn", "handleWsConn"}, {"wsConn", "setupPings"}, {"wsConn", "nextMessage"}, {"wsConn", "nextWriter"}, {"wsConn", "resetReadDeadline"},
 		{"client", "makeOutChan"}, {"client", "setupRequestChan"}, {"handler", "handleReader"}, {"handler", "handle"}, {"", "doCall"}} {
 		w("Definition effects_%s : list string := %s.", f[1], strList(effectSkeleton(root, f[0], f[1])))
 	}
@@ -472,6 +472,9 @@ func genExtracted(b *strings.Builder, root, authp, httpio *pkg) {
 	w("(* the options that carry the keepalive parameters: every statement of the closure each one returns *)")
 	w("Definition option_bodies : list (string * list string) := [%s].", strings.Join([]string{
 		optionBody(root, "WithTimeout"), optionBody(root, "WithPingInterval"), optionBody(root, "WithServerPingInterval")}, "; "))
+	w("(* the options that decide about reconnecting *)")
+	w("Definition reconnect_option_bodies : list (string * list string) := [%s].", strings.Join([]string{
+		optionBody(root, "WithReconnectBackoff"), optionBody(root, "WithNoReconnect")}, "; "))
 	w("Definition nextMessage_resets_before_read : bool := %s.", coqBool(callBefore(root, "nextMessage", "c.resetReadDeadline", "c.conn.NextReader")))
 	w("Definition ping_handler_answers_pong : bool := %s.", coqBool(pingHandlerPongs(root)))
 	w("Definition default_client_ping_timeout : Z * Z := (%s, %s).", coqZ(defaultOf(root, "defaultConfig", "pingInterval")), coqZ(defaultOf(root, "defaultConfig", "timeout")))
